@@ -14,14 +14,15 @@ body.  Nothing is keyed to statement positions.
   //@spec                      (following lines up to the next //@ directive: requires/ensures/decreases)
   //@entry                     (lines inserted right after the opening brace, after rule R1's lets)
   //@loop <k> [var=<ident>]    (lines inserted between the k-th loop's header and its opening brace; `for _ in` gets <ident>)
-  //@loop <k> begin | end      (lines inserted at the beginning / end of that loop's body)
-  //@loop <k> before-call|after-call <callee> <n>   (lines inserted before / after the statement holding the n-th call of <callee> in loop k)
+  //@loop <k> begin | end | after   (lines inserted at the beginning / end of that loop's body / right after the loop)
+  //@loop <k> before-call|after-call <callee> <n>   (lines inserted before / after the statement holding the n-th call of <callee> in loop k; k = 0: the whole body)
   //@rewrite "<from>" => "<to>"   (textual rewrite applied to this function's body; must match; logged)
   //@endfn
 
 Rules applied to the copied body (each application is logged; anything else Verus rejects is "undecided"):
   R1  pattern parameter `[mut a, mut b]: [T; 2]` -> plain parameter named in //@sig + `let mut a = p[0]; ...`
   R7  attributes and comments inside the body are kept; outer attributes/doc comments of the fn are dropped
+  R7c `#[cfg(flag)] { .. }` blocks inside bodies resolved for the unit's declared configuration (//@cfgon / //@cfgoff)
   R9  `for _ in` -> `for <var> in` (Verus needs a name to state the invariant)
   R6  `for x in <iter>` -> `for x in <name>: <iter>` (ghost iterator name, to state invariants over `name.index@`)
   R5  //@typemap "A" => "B": monomorphisation of a type name in signatures and bodies (unit-wide)
@@ -198,6 +199,7 @@ class FnBlock:
         self.loop_call = []   # (loop k, "before"|"after", callee, n, lines)
         self.loop_begin = {}
         self.loop_end = {}
+        self.loop_after = {}
         self.rewrites = []
 
 
@@ -215,6 +217,8 @@ def parse_template(text):
             kw, _, rest = d.partition(" ")
             if kw == "unit":
                 unit = dict(t.split("=", 1) for t in shlex.split(rest))
+            elif kw in ("cfgoff", "cfgon"):
+                unit.setdefault("_" + kw, []).extend(rest.split())
             elif kw == "typemap":
                 m = re.match(r'"(.*)"\s*=>\s*"(.*)"\s*$', rest)
                 unit.setdefault("_typemap", []).append((m.group(1), m.group(2)))
@@ -248,9 +252,9 @@ def parse_template(text):
                         cur.loop_var[k] = t[4:]
                     elif t.startswith("iter="):
                         cur.loop_iter[k] = t[5:]
-                    elif t in ("begin", "end"):
+                    elif t in ("begin", "end", "after"):
                         where = t
-                d_ = {"header": cur.loop_header, "begin": cur.loop_begin, "end": cur.loop_end}[where]
+                d_ = {"header": cur.loop_header, "begin": cur.loop_begin, "end": cur.loop_end, "after": cur.loop_after}[where]
                 target = d_.setdefault(k, [])
             elif kw == "rewrite":
                 m = re.match(r'"(.*)"\s*=>\s*"(.*)"\s*$', rest)
@@ -288,6 +292,31 @@ def extract_fn(repo, unit, fb, log):
         if n:
             real_sig, body = real_sig.replace(frm, to), body.replace(frm, to)
             log.append(f"R5 {fb.name}: type `{frm}` -> `{to}` ({n}x)")
+    # ---- R7c: resolve #[cfg(flag)] / #[cfg(not(flag))] blocks inside the body for the unit's configuration
+    def resolve_cfg(text):
+        changed = True
+        while changed:
+            changed = False
+            m = re.search(r"#\[cfg\((not\()?\s*(\w+)\s*\)?\)\]\s*\{", text)
+            if not m:
+                break
+            neg, flag = bool(m.group(1)), m.group(2)
+            on = flag in unit.get("_cfgon", [])
+            off = flag in unit.get("_cfgoff", [])
+            if not (on or off):
+                raise ExtractError(f"{fb.name}: cfg flag `{flag}` is not declared by //@cfgon / //@cfgoff")
+            active = (on and not neg) or (off and neg)
+            ob_ = m.end() - 1
+            cb_ = match_brace(strip_comments_mask(text), ob_)
+            if active:
+                text = text[:m.start()] + text[ob_:]
+                log.append(f"R7c {fb.name}: kept block of #[cfg({'not(' if neg else ''}{flag}{')' if neg else ''})]")
+            else:
+                text = text[:m.start()] + text[cb_ + 1:]
+                log.append(f"R7c {fb.name}: dropped block of #[cfg({'not(' if neg else ''}{flag}{')' if neg else ''})]")
+            changed = True
+        return text
+    body = resolve_cfg(body)
     # ---- signature check (R1)
     def split_sig(sig, what):
         sg = norm(sig)
@@ -339,10 +368,12 @@ def extract_fn(repo, unit, fb, log):
             inserts.append((lob + 1, lob + 1, "\n" + "\n".join(fb.loop_begin[k]) + "\n"))
         if k in fb.loop_end:
             inserts.append((lcb, lcb, "\n" + "\n".join(fb.loop_end[k]) + "\n"))
+        if k in fb.loop_after:
+            inserts.append((lcb + 1, lcb + 1, "\n" + "\n".join(fb.loop_after[k]) + "\n"))
     for (k, where, callee, nth_call, lines) in fb.loop_call:
         if k > len(loops):
             raise ExtractError(f"lost anchor: {fb.name} has {len(loops)} loops, annotation refers to loop {k}")
-        ks, lob, lcb = loops[k - 1]
+        ks, lob, lcb = loops[k - 1] if k > 0 else (0, 0, len(body))   # loop 0 = the whole function body
         calls = [m.start() for m in re.finditer(r"\b" + re.escape(callee) + r"\s*\(", bmask[lob:lcb])]
         if len(calls) < nth_call:
             raise ExtractError(f"lost anchor: loop {k} of {fb.name} has {len(calls)} calls of {callee}, annotation refers to call {nth_call}")
@@ -362,7 +393,7 @@ def extract_fn(repo, unit, fb, log):
         pos = a if where == "before" else b + 1
         inserts.append((pos, pos, "\n" + "\n".join(lines) + "\n"))
         log.append(f"R6 {fb.name}: proof text {where} call #{nth_call} of {callee} in loop {k}")
-    for d in (fb.loop_header, fb.loop_begin, fb.loop_end, fb.loop_var):
+    for d in (fb.loop_header, fb.loop_begin, fb.loop_end, fb.loop_after, fb.loop_var):
         for k in d:
             if k > len(loops):
                 raise ExtractError(f"lost anchor: {fb.name} has {len(loops)} loops, annotation refers to loop {k}")
